@@ -507,7 +507,7 @@ func vpDERWrap(tag byte, content []byte) []byte {
 }
 
 //vp:property C20
-//vp:bounds the request body is a KDC-PROXY-MESSAGE as MS-KKDCP defines it (EXPLICIT tags): SEQUENCE { [0] OCTET STRING kerb-message (4-byte prefix + 1 symbolic byte), [1] GeneralString target-domain absent / "BRANCH.TEST" / "DEFAULT.REALM" / "NOWHERE.TEST", [2] INTEGER dclocator-hint absent / one symbolic byte }, sent as it is or damaged in one of: a trailing byte after the SEQUENCE, the last byte cut off, the outer tag not a SEQUENCE (0x31), an indefinite outer length (0x80), an outer length one too large; one TCP KDC per configured realm, always replying
+//vp:bounds the request body is a KDC-PROXY-MESSAGE as MS-KKDCP defines it (EXPLICIT tags): SEQUENCE { [0] OCTET STRING kerb-message (4-byte prefix + 1 symbolic byte), [1] GeneralString target-domain absent / "BRANCH.TEST" / "DEFAULT.REALM" / "NOWHERE.TEST", [2] INTEGER dclocator-hint absent / one symbolic byte / 0x80000000 (five octets) }, sent as it is or damaged in one of: a trailing byte after the SEQUENCE, the last byte cut off, the outer tag not a SEQUENCE (0x31), an indefinite outer length (0x80), an outer length one too large; one TCP KDC per configured realm, always replying
 //vp:assume gofork's asn1.Unmarshal as modelled by the shared harness part asn1der from its source (the real library runs natively and every path is compared); gokrb5's realm -> KDC resolution as in VP_C20_realm
 //vp:reach served refused
 func VP_C20_der() {
@@ -522,10 +522,14 @@ func VP_C20_der() {
 	if realm != "" {
 		body = append(body, vpDERWrap(0xA1, vpDERWrap(0x1B, []byte(realm)))...)
 	}
-	if vpBool("has-dclocator-hint") {
+	switch vpIntRange("dclocator-hint", 0, 2) {
+	case 1:
 		h := vpU8("hint")
 		vpAssume(h < 0x80)
 		body = append(body, vpDERWrap(0xA2, vpDERWrap(0x02, []byte{h}))...)
+	case 2:
+		// DsGetDcName flags use all 32 bits: DS_RETURN_FLAT_NAME is 0x80000000, a positive INTEGER of five octets
+		body = append(body, vpDERWrap(0xA2, vpDERWrap(0x02, []byte{0, 0x80, 0, 0, 0}))...)
 	}
 	msg := vpDERWrap(0x30, body)
 	damage := vpIntRange("damage", 0, 5)
